@@ -42,6 +42,14 @@ void dump_K()
   {constexpr auto m = smooth::monomial_integral<K, 1>(); dump("monoint_1", K, m);}
   {constexpr auto m = smooth::monomial_integral<K, 2>(); dump("monoint_2", K, m);}
   {constexpr auto m = smooth::monomial_integral<K, 3>(); dump("monoint_3", K, m);}
+  {constexpr auto m = smooth::monomial_integral<K, 4>(); dump("monoint_4", K, m);}
+  {constexpr auto m = smooth::monomial_integral<K, 5>(); dump("monoint_5", K, m);}
+  {constexpr auto m = smooth::monomial_integral<K, 6>(); dump("monoint_6", K, m);}
+  {constexpr auto m = smooth::monomial_integral<K, 7>(); dump("monoint_7", K, m);}
+  {constexpr auto m = smooth::monomial_integral<K, 8>(); dump("monoint_8", K, m);}
+  {constexpr auto m = smooth::monomial_integral<K, 9>(); dump("monoint_9", K, m);}
+  {constexpr auto m = smooth::monomial_integral<K, 10>(); dump("monoint_10", K, m);}
+  {constexpr auto m = smooth::monomial_integral<K, 11>(); dump("monoint_11", K, m);}
   // lagrange_basis on the dyadic nodes t_i = (i*i - 3*i)/4 + i  (distinct, non-uniform, exactly representable)
   {
     constexpr auto ts = [] { std::array<double, K + 1> t{}; for (std::size_t i = 0; i <= K; ++i) t[i] = (double(i) * double(i) - 3. * double(i)) / 4. + double(i); return t; }();
